@@ -1,41 +1,118 @@
 ------------------------------ MODULE GBParallel ------------------------------
 (***************************************************************************)
-(* util.parallel_map as a state machine (C03: "the order in which parallel  *)
-(* tasks finish").  Tasks are submitted in index order, finish in ANY       *)
-(* order, and every result is stored at the index of its task.              *)
+(* util.parallel_map / util.parallel_reduce as a state machine (C03: "the   *)
+(* order in which parallel tasks finish").                                   *)
 (*                                                                           *)
-(* Anchor: util.parallel_map (future_to_index, as_completed loop,           *)
-(* results[index] = future.result(), exception path).                        *)
+(* Anchors (groupby_lib/util.py):                                            *)
+(*   parallel_map: one argument tuple -> the function runs inline in the    *)
+(*     caller (action Inline); otherwise every task is submitted to a       *)
+(*     ThreadPoolExecutor (a FIFO work queue served by at most `workers`    *)
+(*     threads: Start, Finish), the as_completed loop stores each result    *)
+(*     at the index of its task (Collect), the first exception the loop     *)
+(*     meets is re-raised (Collect of a raising task) -- the `with` block   *)
+(*     then still waits for every task that was submitted (Drain);          *)
+(*   parallel_reduce: reduce(op, parallel_map(...)) -- a left fold of the   *)
+(*     gathered list in INDEX order (Reduce); the operator is modelled as   *)
+(*     sequence concatenation, the least forgiving (non-commutative) one.   *)
 (***************************************************************************)
 EXTENDS Integers, Sequences, FiniteSets, TLC
 
 CONSTANTS NTasksMax,
-          GatherByCompletion   \* deviation: results appended in completion order
+          MaxWorkers,
+          MayRaise,             \* TRUE: any subset of the tasks raises
+          GatherByCompletion    \* deviation: results appended in completion order
 
-VARIABLES ntasks, status, results, order, pc
-(* status : [task -> "pending" | "done"]; order: completion order so far *)
-pvars == <<ntasks, status, results, order, pc>>
+VARIABLES ntasks, workers, raises, status, results, order, pc, exc, reduced
+(* status : [task -> "queued" | "running" | "finished" | "collected"]                       *)
+(* order  : the order in which the as_completed loop has met the tasks so far               *)
+(* pc     : "running" | "returned" | "raised";  exc: the task whose exception propagated    *)
+pvars == <<ntasks, workers, raises, status, results, order, pc, exc, reduced>>
 
 F(i) == 100 + i          \* the value task i computes (distinct per task)
 None == -1
+Tasks == 1..ntasks
 
 Init == /\ ntasks \in 1..NTasksMax
-        /\ status = [i \in 1..ntasks |-> "pending"]
+        /\ workers \in 1..MaxWorkers
+        /\ raises \in (IF MayRaise THEN SUBSET (1..ntasks) ELSE {{}})
+        /\ status = [i \in 1..ntasks |-> "queued"]
         /\ results = IF GatherByCompletion THEN <<>> ELSE [i \in 1..ntasks |-> None]
         /\ order = <<>>
-        /\ pc = "running"
+        /\ pc = "running" /\ exc = None /\ reduced = <<>>
 
-(* a task completes; the as_completed loop stores its result *)
-Collect(i) == /\ pc = "running" /\ status[i] = "pending"
-              /\ status' = [status EXCEPT ![i] = "done"]
-              /\ results' = IF GatherByCompletion THEN Append(results, F(i)) ELSE [results EXCEPT ![i] = F(i)]
+Running == {i \in Tasks : status[i] = "running"}
+Queued == {i \in Tasks : status[i] = "queued"}
+
+(* a single argument tuple: the function is called directly -- no pool, an exception propagates as it is *)
+Inline == /\ pc = "running" /\ ntasks = 1 /\ status[1] = "queued"
+          /\ status' = [status EXCEPT ![1] = "collected"]
+          /\ order' = <<1>>
+          /\ IF 1 \in raises
+             THEN pc' = "raised" /\ exc' = 1 /\ UNCHANGED results
+             ELSE pc' = "returned" /\ exc' = None
+                  /\ results' = IF GatherByCompletion THEN <<F(1)>> ELSE [results EXCEPT ![1] = F(1)]
+          /\ UNCHANGED <<ntasks, workers, raises, reduced>>
+
+(* a free worker thread takes the OLDEST queued task *)
+Start(i) == /\ ntasks > 1 /\ status[i] = "queued"
+            /\ \A j \in Queued : i <= j
+            /\ Cardinality(Running) < workers
+            /\ status' = [status EXCEPT ![i] = "running"]
+            /\ UNCHANGED <<ntasks, workers, raises, results, order, pc, exc, reduced>>
+Finish(i) == /\ status[i] = "running"
+             /\ status' = [status EXCEPT ![i] = "finished"]
+             /\ UNCHANGED <<ntasks, workers, raises, results, order, pc, exc, reduced>>
+
+(* the as_completed loop meets a finished future: stores its result or re-raises its exception *)
+Collect(i) == /\ pc = "running" /\ ntasks > 1 /\ status[i] = "finished"
+              /\ status' = [status EXCEPT ![i] = "collected"]
               /\ order' = Append(order, i)
-              /\ UNCHANGED <<ntasks, pc>>
-Return == /\ pc = "running" /\ \A i \in 1..ntasks : status[i] = "done"
-          /\ pc' = "returned" /\ UNCHANGED <<ntasks, status, results, order>>
-Next == (\E i \in 1..ntasks : Collect(i)) \/ Return
-Spec == Init /\ [][Next]_pvars
+              /\ IF i \in raises
+                 THEN pc' = "raised" /\ exc' = i /\ UNCHANGED results
+                 ELSE /\ results' = IF GatherByCompletion THEN Append(results, F(i)) ELSE [results EXCEPT ![i] = F(i)]
+                      /\ UNCHANGED <<pc, exc>>
+              /\ UNCHANGED <<ntasks, workers, raises, reduced>>
+(* Start, Finish and Collect of one task in one step (used by the trace specification, where only Collect is logged) *)
+RunAndCollect(i) ==
+              /\ pc = "running" /\ ntasks > 1 /\ status[i] # "collected"
+              /\ status' = [status EXCEPT ![i] = "collected"]
+              /\ order' = Append(order, i)
+              /\ IF i \in raises
+                 THEN pc' = "raised" /\ exc' = i /\ UNCHANGED results
+                 ELSE /\ results' = IF GatherByCompletion THEN Append(results, F(i)) ELSE [results EXCEPT ![i] = F(i)]
+                      /\ UNCHANGED <<pc, exc>>
+              /\ UNCHANGED <<ntasks, workers, raises, reduced>>
 
+Return == /\ pc = "running" /\ ntasks > 1 /\ \A i \in Tasks : status[i] = "collected"
+          /\ pc' = "returned"
+          /\ UNCHANGED <<ntasks, workers, raises, status, results, order, exc, reduced>>
+
+(* parallel_reduce: functools.reduce over the gathered list, i.e. in index order *)
+RECURSIVE FoldCat(_, _)
+FoldCat(rs, j) == IF j > Len(rs) THEN <<>> ELSE <<rs[j]>> \o FoldCat(rs, j + 1)
+Reduce == /\ pc = "returned" /\ reduced = <<>>
+          /\ reduced' = FoldCat(results, 1)
+          /\ UNCHANGED <<ntasks, workers, raises, status, results, order, pc, exc>>
+
+Next == Inline \/ (\E i \in 1..NTasksMax : i <= ntasks /\ (Start(i) \/ Finish(i) \/ Collect(i))) \/ Return \/ Reduce
+Spec == Init /\ [][Next]_pvars
+FairSpec == Spec /\ WF_pvars(Next)
+
+-----------------------------------------------------------------------------
+TypeOK == /\ \A i \in Tasks : status[i] \in {"queued", "running", "finished", "collected"}
+          /\ pc \in {"running", "returned", "raised"}
+(* C03: results are gathered by submission index whatever the completion order *)
 GatheredByIndex == pc = "returned" => \A i \in 1..ntasks : results[i] = F(i)
 EachOnce == \A a, b \in 1..Len(order) : a # b => order[a] # order[b]
+(* a call returns only if no task raised; the exception that propagates is the first one the loop met *)
+ReturnsOnlyIfNoneRaised == pc = "returned" => raises = {}
+RaisedIsFirstMet == pc = "raised" => /\ exc \in raises /\ order[Len(order)] = exc
+                                     /\ \A a \in 1..(Len(order) - 1) : order[a] \notin raises
+(* the pool: at most `workers` tasks run at once, and tasks start in submission order *)
+WorkerBound == Cardinality(Running) <= workers
+FifoStart == \A i, j \in Tasks : (i < j /\ status[j] # "queued") => status[i] # "queued"
+(* parallel_reduce folds in index order *)
+ReducedInIndexOrder == reduced # <<>> => reduced = [i \in 1..ntasks |-> F(i)]
+(* every call ends: it returns or raises (checked under FairSpec) *)
+Terminates == <>(pc # "running")
 =============================================================================
